@@ -7,9 +7,9 @@ AST), and inside Coq `block_eqb (model_rule IN) OUT` is evaluated (Lua/Fingerpri
 
 Left out on purpose (the models do not cover them, see the header of Model/Lowering.v):
 programs that declare a local / parameter named `math`, `string`, `tostring` or one of the
-`__DARKLUA_VAR*` temporaries; remove_attribute with a `match` list; remove_continue (not
-modelled as a Gallina function: it is a post-order rule with a loop stack, covered by the
-whole-program stream only)."""
+`__DARKLUA_VAR*` temporaries; remove_attribute with a `match` list.  remove_continue has its own
+model (coq/Model/RemoveContinue.v, a post-order traversal with a loop stack) and its own
+stream, vlib/continue_gen.py."""
 import itertools
 import random
 
